@@ -254,6 +254,7 @@ from .refs import (
     _set_default_branch,
     _set_head,
     _set_origin_head,
+    check_ref_format,
     filter_ref_prefix,
     read_info_refs,
 )
@@ -3062,6 +3063,19 @@ class LocalGitClient(GitClient):
                 and new_sha1 not in target.object_store
             }
 
+            # ... nor write through a name that only aliases another ref's file
+            # (refs/heads//x: tolerated by RefsContainer with a warning)
+            funny = {
+                refname
+                for refname, new_sha1 in new_refs.items()
+                if old_refs.get(refname) != new_sha1
+                and refname != HEADREF
+                and not (
+                    refname.startswith(b"refs/")
+                    and check_ref_format(Ref(refname[5:]))
+                )
+            }
+
             def current_value(refname: Ref) -> ObjectID:
                 try:
                     return target.refs[refname]
@@ -3074,6 +3088,8 @@ class LocalGitClient(GitClient):
                     old_sha1 = old_refs.get(refname, ZERO_SHA)
                     if refname in missing:
                         ref_status[refname] = "missing necessary objects"
+                    elif refname in funny:
+                        ref_status[refname] = "funny refname"
                     elif current_value(refname) != old_sha1:
                         if new_sha1 != ZERO_SHA:
                             ref_status[refname] = (
@@ -3097,6 +3113,8 @@ class LocalGitClient(GitClient):
                 msg = None
                 if refname in missing:
                     msg = "missing necessary objects"
+                elif refname in funny:
+                    msg = "funny refname"
                 elif new_sha1 != ZERO_SHA:
                     try:
                         updated = target.refs.set_if_equals(
